@@ -101,4 +101,16 @@ SPECS = {
                          "not modelled (searched only): which attribute combinations actually produce a reference edge (validity rules of each converter), use expansion (modelled for C01/C10), fix_recursive_* pre-passes (now redundant)"],
         "assumptions": COMMON_ASSUME + ["the unguarded part of the reference graph (children, shapes, groups, feImage targets) is acyclic: it is the finite svgtree after use expansion, and every reference edge ends in a guarded element or is owned by one (feImage by its filter)"],
     },
+    "C01": {
+        "level": "proof",
+        "corr": True,
+        "search": True,
+        "translator_anchors": ["svgtree/parse.rs: depth limit (parse_xml_node) and node limit (parse_svg_element)", "use stack check/push", "HrefIter visited check/push"],
+        "claim": "Lean 4 theorems about the svgtree builder (parse_xml_node / parse_svg_use_element with the expansion stack / limits): the fuel derived from the depth limit is never exhausted (one more unit of fuel changes nothing: the recursion depth, hence the stack, is bounded by depthLimit+2 frames), a successful build has at most nodeLimit+1 element nodes whatever the use-expansion bomb, xlink:href chains end (theorem of C03). The limits are re-extracted from the sources by the translator; the builder model is tied by dumps of the real intermediate tree for generated XML skeletons (known/unknown/foreign elements and attributes, duplicate ids, use to self/ancestor/descendant/missing/non-SVG targets, nesting around the depth limit). roxmltree, simplecss, svgtypes, flate2, text layout and the numeric converters are outside the model: they are searched in an isolated worker (corpus, grammar documents, nesting and use bombs, raw bytes, gzip, and a systematic sweep of every attribute of two rich base documents over 22 adversarial values); the converter panics found that way are genuine defects listed as known findings.",
+        "design_ref": "§6 C01",
+        "rule": "correspondence: build requests = PRNG XML skeletons (pre-order flat encoding) + chains of 5..1026 nested groups; answer = the real svgtree dump. search: worker parse of corpus sample, generated documents, nesting/use bombs, raw bytes / gzip prefixes, and the deterministic attribute sweep (each attribute of harness/data/base1.svg and base2.svg x 22 pool values); non-trivial = parsed to a tree.",
+        "trusted_base": ["modelled: svgtree/parse.rs parse, parse_xml_node(_children), parse_svg_element (attribute copy), parse_svg_use_element, resolve_href, limits; svgtree/mod.rs HrefIter",
+                         "not modelled (searched only): roxmltree, simplecss, svgtypes, flate2, svgtree/text.rs, the converter (numeric validation, text layout, images)"],
+        "assumptions": COMMON_ASSUME + ["main-thread stack of 8 MiB (the depth limit bounds the recursion, the frame size is an environment fact)"],
+    },
 }
